@@ -101,6 +101,13 @@ func guard(f func() string) (out string) {
 
 var lastPanic string
 
+func renderAny(c interface{}) string {
+	if cd, ok := c.(plenccodec.Codec); ok {
+		return renderCodecD(cd, 5)
+	}
+	return "?"
+}
+
 func plencnullAdd(p *plenc.Plenc) { plencnull.AddCodecs(p) }
 
 func atoiU(s string) (uint64, bool) {
@@ -300,6 +307,16 @@ func execOp(s *Sexp) string {
 		return ""
 	}
 	switch h {
+	case "alias":
+		return execAlias(s)
+	case "world":
+		return execWorld(s)
+	case "tagtool":
+		return execTagtool(s)
+	case "jrt":
+		return execJRT(s)
+	case "desc":
+		return execDesc(s)
 	case "sched":
 		return execSched(s)
 	case "descjson":
@@ -465,6 +482,44 @@ func execOp(s *Sexp) string {
 				return "err"
 			}
 			return "ok " + FromReflect(pv.Elem(), c.td).String()
+		})
+	case "decm":
+		// (decm cfg T tag V PRIOR): Unmarshal(Marshal(V)) into a target holding PRIOR
+		c, err := parseCtx(s)
+		if err != nil {
+			return "bad-op " + err.Error()
+		}
+		v, err := parseVal(s.List[4])
+		if err != nil {
+			return "bad-op " + err.Error()
+		}
+		var prior *Val
+		if len(s.List) > 5 && s.List[5].IsL {
+			prior, err = parseVal(s.List[5])
+			if err != nil {
+				return "bad-op " + err.Error()
+			}
+		}
+		return guard(func() string {
+			if _, err := c.codec(); err != nil {
+				return "builderr"
+			}
+			src, err := c.newValue(v)
+			if err != nil {
+				return "bad-op " + err.Error()
+			}
+			data, err := c.marshalPtr(src)
+			if err != nil {
+				return "err"
+			}
+			dst, err := c.newValue(prior)
+			if err != nil {
+				return "bad-op " + err.Error()
+			}
+			if err := c.unmarshalPtr(data, dst); err != nil {
+				return "err"
+			}
+			return "ok " + FromReflect(dst.Elem(), c.td).String()
 		})
 	case "rt":
 		c, err := parseCtx(s)
